@@ -4,10 +4,13 @@ LEVEL = 'exploration'
 LEVEL_TEXT = ('exploration: on the real MediaList / MediaQuery, every list over the ten known media types up to length 3 (quick) / 4 (thorough), generated media queries '
               '(not/only, and-joined features with min-/max- prefixes and length/number/ident/colour values) alone and in lists, every token string up to 5 / 6 tokens plus the '
               'one-token mutation neighbourhood of well-formed strings against a reference recogniser, and every edit history up to length 3 / 4 (appendMedium, deleteMedium, item '
-              'assignment, mediaText assignment) on stand-alone, @media-owned and @import-owned lists against a reference model satisfy the statement')
+              'assignment, mediaText assignment of the list and of a single member query) on stand-alone, @media-owned and @import-owned lists against a reference model, and '
+              'every token string up to 3 / 4 tokens plus the neighbourhood of well-formed texts assigned to each query of a three-entry list whose query objects were created in eleven '
+              'ways (list / rule parsers, appendMedium, item assignment, stand-alone) in raising and logging mode satisfy the statement')
 LEVEL_NOTE = ('bounded: longer lists / histories, other features and value kinds (ratios, strings), other white space and comment placements than those enumerated are not covered; '
               'the serialised text is read back by an independent scanner, not by cssutils; the production parser\'s module-level list of handed-back tokens is emptied before '
-              'every evaluation (its leakage is the subject of C12)')
+              'every evaluation but never inside one: the steps of a history, the reparse and the follow-up edits run on whatever the preceding step left there (leakage between '
+              'unrelated parses is the subject of C12)')
 TECHNIQUE = ('bounded run-time contracts over exhaustively enumerated lists, queries, token strings and edit histories: independent renderer/reader, reference recogniser of the '
              'query grammar, reference model of the ordered set run in lock-step')
 DESIGN_REF = 'DESIGN.md section 3, C17'
@@ -21,6 +24,7 @@ def bounded(ctx):
     c17.query_lists(ctx)
     c17.token_strings(ctx)
     c17.histories(ctx)
+    c17.member_edits(ctx)
 
 
 # T1 (PyVC): deleteMedium and appendMedium on the ordered-set view of the list (any length, raising and logging mode): delete removes
